@@ -492,16 +492,18 @@ def diff(ctx, lines, what, classes=None, nontrivial=None, tags=("verif",), race=
     # (a loaded machine must not be mistaken for a deadlock; a real deadlock stays hung)
     hung = [i for i, o in enumerate(impl) if o.startswith("HANG")]
     if hung:
-        env2 = dict(impl_env or os.environ, VERIF_WATCHDOG_SEC="400")
-        for i in hung[:4]:
-            r = run_lines(h, [lines[i]], env2, cpus, 1, 900, gomaxprocs, impl_prefix)
-            log("watchdog expiry on %r re-run alone: %s" % (lines[i][:80], r[-1][:60] if r else "?"))
-            if r and not r[-1].startswith("HANG"):
-                impl[i] = r[-1]
-        if all(not impl[i].startswith("HANG") for i in hung[:4]) and len(hung) > 4:
-            r = run_lines(h, [lines[i] for i in hung[4:]], env2, cpus, 1, 3000, gomaxprocs, impl_prefix)
-            for i, o in zip(hung[4:], r[-len(hung[4:]):]):
-                impl[i] = o
+        env2 = dict(impl_env or os.environ, VERIF_WATCHDOG_SEC="240")
+        # the first expiry decides: still hung when run alone with a long period -> the hangs are real (not re-run);
+        # otherwise the machine was slow and every reported expiry is re-run
+        r = run_lines(h, [lines[hung[0]]], env2, cpus, 1, 600, gomaxprocs, impl_prefix)
+        log("watchdog expiry on %r re-run alone: %s" % (lines[hung[0]][:80], r[-1][:60] if r else "?"))
+        if r and not r[-1].startswith("HANG"):
+            impl[hung[0]] = r[-1]
+            rest = hung[1:]
+            if rest:
+                rr = run_lines(h, [lines[i] for i in rest], env2, cpus, min(4, len(rest)), 3000, gomaxprocs, impl_prefix)
+                for i, o in zip(rest, rr):
+                    impl[i] = o
     nv0 = len(ctx.violations)
     ctx.compare(lines, impl, mod, what, norm=norm)
     if shards == 1 and impl_shards == 1 and len(lines) <= 5000:
